@@ -76,6 +76,7 @@ def generate(tier, rng):
     for key in tg.REGISTRY + tg.BORROWED:
         for e in rng.sample(pool, 40 if big else 12) + pool[-24:]:
             out.append("DT %s %s =?" % (key, hexs(e)))
+    out += iter_twins(out)        # Decoder::array_iter / map_iter (context-free twins of the iterators the Vec / map impls use)
     return out
 
 def nontrivial(line, impl):
